@@ -118,6 +118,9 @@ type AI struct {
 	onBranch func(st *aiState, ifi *ssa.If, idx int)
 	// onSelect is invoked on the forked state when select case i is chosen (-1 = default)
 	onSelect func(st *aiState, sel *ssa.Select, i int)
+	// onAssert is invoked on each of the two forks of a comma-ok type assertion (ok = the assertion held);
+	// returning false prunes that fork
+	onAssert func(st *aiState, ta *ssa.TypeAssert, ok bool) bool
 	// onRecv is invoked when a receive from a tracked token is executed (select case or plain receive)
 	onRecv func(st *aiState, tok string, in ssa.Instruction, bare bool)
 
@@ -407,6 +410,32 @@ func (ai *AI) execFrom(b *ssa.BasicBlock, from int, st *aiState, push func(*ssa.
 		case *ssa.TypeAssert:
 			if !x.CommaOk {
 				st.env[x] = "nonnil"
+			} else if ai.onAssert != nil {
+				// v, ok := x.(T): two outcomes, (value of type T, true) and (zero value, false)
+				for _, okv := range []bool{true, false} {
+					out := st.clone()
+					if !ai.onAssert(out, x, okv) {
+						continue
+					}
+					if out.tup == nil {
+						out.tup = map[ssa.Value][]string{}
+					}
+					zero := ""
+					switch x.AssertedType.Underlying().(type) {
+					case *types.Interface, *types.Pointer, *types.Map, *types.Slice, *types.Chan, *types.Signature:
+						zero = "nil"
+					}
+					if okv {
+						out.tup[x] = []string{"nonnil", "true"}
+						if zero == "" {
+							out.tup[x] = []string{"", "true"}
+						}
+					} else {
+						out.tup[x] = []string{zero, "false"}
+					}
+					ai.execFrom(b, idx+1, out, push, frame)
+				}
+				return
 			}
 		case *ssa.Call:
 			// a new helper is interpreted in place of the call (extracting part of the loop into a method must not
